@@ -1,5 +1,5 @@
 (* C14 — DLMS data codec: values decode as encoded, lengths honoured, truncation refused. *)
-From Dlms Require Import Base AxdrModel AxdrSpec AxdrProofs.
+From Dlms Require Import Base AxdrModel AxdrSpec AxdrBridge AxdrProofs.
 
 (* decoding the standard encoding of any supported value tree (any depth, any width, every
    length-prefix form) returns the corresponding Python value and consumes exactly its bytes *)
